@@ -464,7 +464,13 @@ func generateDoc(r *rng, cfg genCfg) *Doc {
 				pb = []string{"{", `  "id": 1 // ` + fuzzRules[r.n(len(fuzzRules))], "}"}
 			}
 			if cfg.PathBodyFuzz {
-				switch r.n(9) {
+				pick := r.n(9)
+				if cfg.AliasTypes > 0 && len(g.types) > 0 && r.chance(400) {
+					// a Path described by a type that is only another name for a type
+					pb = []string{"@" + g.ident("alias", r.n(cfg.AliasTypes))}
+					pick = -1
+				}
+				switch pick {
 				case 7:
 					pb = []string{"{", `  "id": 1,`, `  "x": {"y": 1},`, `  "z": [1, 2],`, `  "w": {"v": {"u": true}}`, "}"}
 				case 8:
